@@ -117,6 +117,25 @@ fn main() {
             }
             eprintln!("validation: {:?}", t.elapsed());
         }
+        "g5" => {
+            use dsv::gen::manifold::*;
+            let c = corpus(1, true);
+            let which: usize = args[2].parse().unwrap();
+            let (ds, name, _) = &c[c.len() - 2 + which];
+            eprintln!("{} {} chambers manifold {}", name, ds.size, is_manifold_symbol(ds));
+            let t = std::time::Instant::now();
+            eprintln!("H1 {:?} ({:?})", dsv::props::c15::h1(ds), t.elapsed());
+            let t = std::time::Instant::now();
+            let y = rust_dsymbols::delaney3d::pseudo_toroidal_cover(&ds.to_partial());
+            eprintln!("ptc: {:?} chambers ({:?})", y.as_ref().map(|y| rust_dsymbols::dsets::DSet::size(y)), t.elapsed());
+            if let Some(y) = y {
+                let t = std::time::Instant::now();
+                let s = rust_dsymbols::simplify::simplify(&y);
+                eprintln!("simplify: {:?} ({:?})", s.as_ref().map(|y| (rust_dsymbols::dsets::DSet::size(y), rust_dsymbols::dsets::DSet::is_connected(y))), t.elapsed());
+            }
+            let t = std::time::Instant::now();
+            eprintln!("verdict {:?} ({:?})", dsv::props::c17::verdict(ds, false), t.elapsed());
+        }
         "interesting3d" => {
             // 3D symbols of a given size whose euclidicity verdict is decided after simplification
             use rayon::prelude::*;
